@@ -108,13 +108,19 @@ def snapshot(conn):
 
 def _instrument(conn, bound):
     """count get_prompt rounds; at each, record (belief, true device mode) — the oracle's view of the hazard"""
-    st = {"rounds": 0, "probe": []}
+    st = {"rounds": 0, "probe": [], "dest": None}
     orig = conn.channel.get_prompt
     dev = conn.transport.device
+    orig_acq = conn.acquire_priv
+
+    def acq(desired_priv):
+        st["dest"] = desired_priv
+        return orig_acq(desired_priv)
+    conn.acquire_priv = acq
 
     def note():
         st["rounds"] += 1
-        st["probe"].append((conn._current_priv_level.name, dev.mode_name()))
+        st["probe"].append((conn._current_priv_level.name, dev.mode_name(), st["dest"]))
         if st["rounds"] > bound:
             raise HarnessAbort(f"more than {bound} get_prompt rounds")
     if conn.__class__.__name__.startswith("Async"):
